@@ -186,6 +186,7 @@ func cmdCheck(args []string) {
 		c := newFnCtx(eng, fn, fc, k)
 		c.verify()
 		c.checkLoopCount()
+		c.checkAssertsSeen()
 		ctxs = append(ctxs, c)
 		for _, e := range c.errs {
 			structural = append(structural, k+": "+e)
